@@ -3,7 +3,7 @@
 cd "$(dirname "$0")/.."
 for seed in "$@"; do
   for p in C01 C02 C03 C04 C05 C06 C07 C08 C09 C10 C11 C12 C13 C14 C15 C16 C17 C18 C19 C20; do
-    out=$(VERIF_SEED=$seed ./check $p --tier quick 2>&1); rc=$?
+    out=$(VERIF_EVIDENCE_DIR=$PWD/.cache/evidence-seeds VERIF_SEED=$seed ./check $p --tier quick 2>&1); rc=$?
     if [ $rc -ne 0 ]; then echo "SEED $seed $p rc=$rc"; echo "$out" | grep -v KNOWN-FINDING | tail -6; fi
   done
   echo "seed $seed done"
